@@ -57,6 +57,9 @@ def same_word(a, b):
 
 def harness(ctx, cfg):
     n = cfg["length"]
+    # for_prop: the run serves as the undo/redo lemma of another property (harness/history_real.py)
+    P = cfg.get("for_prop", "C02")
+    pre = "C02." if P == "C02" else f"{P}.undo_redo_lemma:"
     w = World()
     tr = Tracks(nx.DiGraph(), ndim=3)
     emitted = []
@@ -113,15 +116,16 @@ def harness(ctx, cfg):
     except Trap as e:
         ctx.tag("trap")
         ctx.input("ops", ops)
-        ctx.oblige("C02.inverse_applied_only_in_post_state", False, "C02")
+        ctx.oblige(pre + "inverse_applied_only_in_post_state", False, P)
         return
     ctx.input("ops", ops)
     ctx.tag("completed")
     ctx.tag("ops:" + "".join(o[0] for o in ops))
-    ctx.oblige("C02.state_follows_timeline", And(ok_state), "C02")
-    ctx.oblige("C02.return_false_iff_nothing_to_step", all(ok_ret), "C02")
-    ctx.oblige("C02.refresh_once_per_step", all(ok_emit), "C02")
-    ctx.oblige("C02.every_visited_state_stays_on_timeline", reach, "C02")
+    ctx.oblige(pre + "state_follows_timeline", And(ok_state), P)
+    if P == "C02":
+        ctx.oblige("C02.return_false_iff_nothing_to_step", all(ok_ret), "C02")
+        ctx.oblige("C02.refresh_once_per_step", all(ok_emit), "C02")
+    ctx.oblige(pre + "every_visited_state_stays_on_timeline", reach, P)
 
 
 def replay(f):
